@@ -202,6 +202,7 @@ def install_checkpoint_seam(ctx, disk, resume_name):
                             likelihood_time=data.model.likelihood_evaluation_time.total_seconds(),
                             finalised=bool(data.finalised), save_existing=bool(save_existing),
                             fs_event=disk.n)
+            outer_ckpt = getattr(disk, "current_ckpt", None)  # a signal handler checkpoints inside a checkpoint
             disk.current_ckpt = o
         prev_phase = ctx.phase
         if is_sampler:
@@ -220,8 +221,8 @@ def install_checkpoint_seam(ctx, disk, resume_name):
                     sha = hashlib.sha1(fh.read()).hexdigest()
             except OSError:
                 pass
-            ctx.nb.note("ckpt_done", ordinal=ctx.ckpt_ordinal, fs_event=disk.n, sha=sha)
-            disk.current_ckpt = None
+            ctx.nb.note("ckpt_done", ordinal=o, fs_event=disk.n, sha=sha)
+            disk.current_ckpt = outer_ckpt
         return out
 
     _patch_everywhere(orig, safe_file_dump)
